@@ -1128,6 +1128,15 @@ void run_fixed(const std::string & tn, int level = 0)
 /// oracle self-checks: the reference (+) against a closed form, scatter/gather bookkeeping, fingerprints
 inline void selfchecks()
 {
+  mc::assumption("C07: round-trip errors are measured relative to the forward-error scale max(1,|a|,|m|) resp. max(1,|m|,|m2|) "
+                 "(largest entry of the documented matrix forms): m^-1 (m exp a) cancels the entries of m");
+  mc::assumption("C07: tolerances of the round trips are C02's (1e-9 double / 1e-3 float; 1e-7 / 1e-2 when the relative rotation "
+                 "lies within 1e-5 / 1e-2 of pi); rminus(m,m)=0 within 400 eps of max(1,|m|) (calibrated, worst observed 3.3 eps)");
+  mc::assumption("C07: SubManifold values lie on the sub-manifold (m = m0 (+)_ref scatter(c)); binary operations only between "
+                 "objects with identical origin and fixed dimensions, the second operand being s (+)_ref a with a free tangent a "
+                 "(rplus(s,rminus(s2,s))=s2 does not hold for arbitrary members of a sub-manifold of a non-commutative group)");
+  mc::assumption("C07: container / adaptor results are compared with the element-level library operations (judged by C01/C02) "
+                 "on segments recomputed from the reference dof of each element; tolerance 64 eps, observed 0");
   {
     // ref_rplus on SE2: identity (+) (1,2,0) = translation (1,2)
     smooth::SE2d g = smooth::SE2d::Identity();
